@@ -344,6 +344,7 @@ func c03(run *ev.Run, tier string) {
 	run.Set("cases_rebuilt_after_source_change", rebuilt)
 	c03Overlapping(run, tier, &st)
 	afterFailedBuilds(run, "C03", func(f string, raw []byte, p *dec.Package) []problem { return digestProblems(f, p, &st) })
+	c03SourceDateEpochSet(run, tier, &st)
 	// the command line tool rebuilding to the same target after the payload shrank
 	if bin := nfpmBin(run); bin != "" {
 		cliRebuildSmaller(run, bin, "C03", func(f, how string, atTarget, fresh []byte) {
@@ -513,3 +514,58 @@ func c03Overlapping(run *ev.Run, tier string, st *digStats) {
 	run.Set("packages_built_while_others_were_in_flight", built)
 }
 
+
+// c03SourceDateEpochSet: SOURCE_DATE_EPOCH is exported (as reproducible-build
+// environments do) and differs from the configured mtime, or is the only time
+// given: what the package states about its own members still matches them.
+func c03SourceDateEpochSet(run *ev.Run, tier string, st *digStats) {
+	prev, had := os.LookupEnv("SOURCE_DATE_EPOCH")
+	defer func() {
+		if had {
+			_ = os.Setenv("SOURCE_DATE_EPOCH", prev)
+		} else {
+			_ = os.Unsetenv("SOURCE_DATE_EPOCH")
+		}
+	}()
+	n := 6
+	if tier == "thorough" {
+		n = 40
+	}
+	var built int64
+	for i := 0; i < n; i++ {
+		root := newWorkDir("c03s")
+		o := gen.DefaultOpts()
+		o.NEntries = [2]int{2, 6}
+		o.NoPkgMTime = i%3 == 2
+		c, err := gen.New(uint64(run.Seed), 31000+i, root, o)
+		if err != nil {
+			run.Inconclusive(err.Error())
+			removeWorkDir(root)
+			continue
+		}
+		y := c.Spec.YAML()
+		for _, sde := range []string{"1000000000", "2000000001"} {
+			_ = os.Setenv("SOURCE_DATE_EPOCH", sde)
+			for _, f := range formats {
+				run.Case(fmt.Sprintf("source-date-epoch-set|%s|configured-mtime=%v|%s|%d", sde, c.Spec.MTime != 0, f, i), true)
+				res := buildYAML(y, f)
+				if res.Err != nil || res.Panic != "" {
+					run.Violate("C03/"+f+"/build-error", map[string]any{"case": 31000 + i, "SOURCE_DATE_EPOCH": sde, "error": fmt.Sprint(res.Err, ev.Short(res.Panic, 200))})
+					continue
+				}
+				built++
+				p := dec.Decode(f, res.Bytes, false)
+				if len(p.Errs) > 0 {
+					run.Violate("C03/"+f+"/undecodable", map[string]any{"case": 31000 + i, "errors": p.Errs})
+					continue
+				}
+				for _, pr := range digestProblems(f, p, st) {
+					run.Violate("C03/"+f+"/source-date-epoch-set/"+pr.kind, map[string]any{"case": 31000 + i, "SOURCE_DATE_EPOCH": sde, "configured_mtime": c.Spec.MTime, "detail": ev.Short(pr.detail, 500)})
+				}
+			}
+		}
+		_ = os.Unsetenv("SOURCE_DATE_EPOCH")
+		removeWorkDir(root)
+	}
+	run.Set("packages_built_with_source_date_epoch_exported", built)
+}
